@@ -10,6 +10,9 @@ import (
 
 func tokenString(s string) string {
 	s = strings.Trim(s, " \t\n\r")
+	if len(s) == 0 {
+		return s
+	}
 	lastChar := len(s) -1
 	if s[0] == char_doublequote && s[lastChar] == char_doublequote {
 		return unescape(s[1:lastChar])
